@@ -249,20 +249,24 @@ fn run_case<S: Sut>(id: &str, disc: u64, cmds: &[Vec<u64>], t: &mut Out) {
                     let r2 = (a.next() as usize) % reps.len();
                     let r3 = (a.next() as usize) % reps.len();
                     let (x, y, z) = (reps[r].clone(), reps[r2].clone(), reps[r3].clone());
+                    // the merges behind the laws are logged calls as well, so that a deviation of the implementation from
+                    // the model on exactly these inputs is seen by the correspondence check
+                    t.line("(pre law)");
                     let mut xy = x.clone();
-                    xy.merge_quiet(&y);
+                    xy.merge_logged(&y, t);
                     let mut yx = y.clone();
-                    yx.merge_quiet(&x);
+                    yx.merge_logged(&x, t);
                     t.line(&format!("(law C02 comm {} {} {} {})", xy.same(&yx), xy.reads_sx() == yx.reads_sx(), xy.sx(), yx.sx()));
                     let mut xy_z = xy.clone();
-                    xy_z.merge_quiet(&z);
+                    xy_z.merge_logged(&z, t);
                     let mut yz = y.clone();
-                    yz.merge_quiet(&z);
+                    yz.merge_logged(&z, t);
                     let mut x_yz = x.clone();
-                    x_yz.merge_quiet(&yz);
+                    x_yz.merge_logged(&yz, t);
                     t.line(&format!("(law C02 assoc {} {} {} {})", xy_z.same(&x_yz), xy_z.reads_sx() == x_yz.reads_sx(), xy_z.sx(), x_yz.sx()));
                     let mut xx = x.clone();
-                    xx.merge_quiet(&x);
+                    xx.merge_logged(&x, t);
+                    t.line("(pre none)");
                     t.line(&format!("(law C02 idem {} {} {} {})", xx.same(&x), xx.reads_sx() == x.reads_sx(), xx.sx(), x.sx()));
                     // hybrid: merge vs delivering the union of the ops
                     let mut ku = know[r].clone();
